@@ -85,7 +85,10 @@ def scc_instants():
                             if isinstance(v, float) and v != int(v):
                                 vals.add(v)
     vals = sorted(vals)
-    _scc_cache = vals[:: max(1, len(vals) // 60)]
+    # ... plus float instants a fraction of a microsecond away from a whole second / minute / hour (the reader yields such
+    # values, e.g. 1000999999.9999999 for non-drop 00:16:40:00)
+    near = [999999.9999999, 1999999.6, 2000000.4, 59999999.7, 60000000.25, 1000999999.9999999, 3599999999.9, 3600000000.2]
+    _scc_cache = vals[:: max(1, len(vals) // 60)] + near
     return _scc_cache
 
 
